@@ -215,6 +215,12 @@ func ReadComments(f io.Reader) ([]byte, error) {
 func ReadImports(f io.Reader, reportSyntaxError bool, imports *[]string) ([]byte, error) {
 	r := &importReader{b: bufio.NewReader(f)}
 
+	// Remove leading UTF-8 BOM: a compiler may ignore a byte order mark
+	// if it is the first Unicode code point in the source text.
+	if lead, err := r.b.Peek(3); err == nil && lead[0] == 0xEF && lead[1] == 0xBB && lead[2] == 0xBF {
+		r.b.Discard(3)
+	}
+
 	r.readKeyword("package")
 	r.readIdent()
 	for r.peekByte(true) == 'i' {
